@@ -199,7 +199,7 @@ func cmdRun(args []string) {
 	want := func(p string) bool { return *prop == "all" || *prop == p }
 	stats := runJobs(jobs, *workers, func(st *Stats) *Mon {
 		m := NewMon(st)
-		if want("C19") || *prop == "C09" || *prop == "C10" || *prop == "C03" || *prop == "C11" || *prop == "C15" || *prop == "C16" || *prop == "C12" || *prop == "C07" || *prop == "C02" || *prop == "C05" {
+		if want("C19") || *prop == "C09" || *prop == "C10" || *prop == "C03" || *prop == "C11" || *prop == "C15" || *prop == "C16" || *prop == "C12" || *prop == "C07" || *prop == "C02" || *prop == "C05" || *prop == "C14" || *prop == "C06" || *prop == "C04" || *prop == "C08" || *prop == "C01" || *prop == "C13" {
 			attachC19(m, 23)
 		}
 		if want("C17") || *prop == "C15" {
